@@ -177,6 +177,12 @@ class WebSession(object):
                 for name in ('Host', 'Authorization', 'Cookie'):
                     if name in request.fields:
                         del request.fields[name]
+
+                # The login was given for the original host only.
+                if request.url_info.hostname_with_port != \
+                        self._original_request.url_info.hostname_with_port:
+                    request.username = None
+                    request.password = None
             else:
                 request = self._request_factory(url)
 
